@@ -250,7 +250,11 @@ Section Monitor.
     let init' :=
       if is_init then
         match m_init m with
-        | Some (_, n) => Some (t, if no_giveup m then 1 else if maxTransmissions <=? n then 1 else n + 1)
+        | Some (_, n) =>
+            (* after the 20th: with a persistent keepalive a new attempt starts; without one every
+               further initiation is a violation of clause 3 and keeps counting *)
+            Some (t, if no_giveup m then 1
+                     else if (maxTransmissions <=? n) && negb (m_pka m =? 0) then 1 else n + 1)
         | None => Some (t, 1)
         end
       else m_init m in
